@@ -23,7 +23,7 @@ TIER = {
                      gen=dict(MinSmall=3, MaxSmall=5, Seeds="{1, 2, 3, 4}", MedSizes="{12, 24, 40, 60}", Lite="FALSE"),
                      stride=dict(csvc=1, nusvc=1, oneclass=1, esvr=1, nusvr=2, f32=1)),
 }
-FAMS = '{"csvc", "nusvc", "oneclass", "esvr", "nusvr", "f32"}'
+FAMS = '{"csvc", "nusvc", "oneclass", "esvr", "nusvr", "f32", "offset"}'
 
 
 def design_models(ctx):
@@ -114,7 +114,11 @@ def random_cases(ctx, count):
             continue
         shr = r.random() < 0.6
         ft = "f32" if (r.random() < 0.1 and kern["k"] == "lin" and max(cp[0] / cp[1], cn[0] / cn[1], c[0] / c[1]) <= 1) else "f64"
-        out.append({"kind": kind, "inp": {"x": x, "y": y, "dim": 2, "kern": kern, "cp": cp, "cn": cn, "nu": nu, "c": c, "le": le,
+        # Gaussian kernel: records shifted by an exactly representable offset (the kernel is shift-invariant)
+        off, ue = 0, 0
+        if kern["k"] == "rbf" and r.random() < 0.4:
+            off, ue = r.choice([(1000, 20), (1000000, 10), (10000000, 10), (10000000, 0), (1 << 30, 0), (999999937, 4)])
+        out.append({"kind": kind, "inp": {"off": off, "ue": ue, "x": x, "y": y, "dim": 2, "kern": kern, "cp": cp, "cn": cn, "nu": nu, "c": c, "le": le,
                                           "shr": shr, "ft": ft, "tolx": 3 if ft == "f32" else 7, "q": q,
                                           "eq": eq if (kind in ("csvc", "nusvc") and not shr) else [],
                                           "pr": kind in ("csvc", "nusvc") and not shr}})
@@ -125,7 +129,7 @@ def thin(cases, stride):
     """the quick tier keeps the complete medium families and every stride-th small case per kind (deterministic)"""
     out, cnt = [], {}
     for c in cases:
-        small = c["inp"]["dim"] == 1
+        small = c["inp"]["dim"] == 1 and c["inp"].get("off", 0) == 0      # the shifted-record families are kept whole
         k = c["kind"] if c["inp"]["ft"] == "f64" else "f32"
         st = stride.get(k, 2)
         cnt[k] = cnt.get(k, 0) + 1
